@@ -340,6 +340,12 @@ MUTANTS = [
                 }""", new="                expression_result", expect="V-codegen::Compiler::compile_node__debug_arm::"),
     dict(name="codegen_debug_without_span", kind="break", prop="C12", units=["V-codegen"], file="crates/bytecode/src/compiler.rs",
          old="                self.push_op(Debug, &[expression_register]);", new="                self.push_op_without_span(Debug, &[expression_register]);", expect="V-codegen::Compiler::compile_node__debug_arm::expression_then_the_debug_instruction"),
+    dict(name="codegen_pipe_f34_call_compiled_with_the_callers_request", kind="break", prop="C01", units=["V-codegen"], file="crates/bytecode/src/compiler.rs",
+         old="                    self.compile_call(function_register, &[], pipe_register, None, call_context)?;\n                } else {", new="                    self.compile_call(function_register, &[], pipe_register, None, ctx)?;\n                } else {", expect="V-codegen::Compiler::compile_piped_call::"),
+    dict(name="codegen_pipe_f34_chain_output_returned", kind="break", prop="C01", units=["V-codegen"], file="crates/bytecode/src/compiler.rs",
+         old="                self.compile_chain(chain_node, pipe_register, None, None, call_context)?;\n            }", new="                return self.compile_chain(chain_node, pipe_register, None, None, call_context);\n            }", expect="V-codegen::Compiler::compile_piped_call::"),
+    dict(name="codegen_pipe_value_not_piped", kind="break", prop="C01", units=["V-codegen"], file="crates/bytecode/src/compiler.rs",
+         old="                self.compile_call(function_register, &[], pipe_register, None, call_context)?;\n                if function.is_temporary {", new="                self.compile_call(function_register, &[], None, None, call_context)?;\n                if function.is_temporary {", expect="V-codegen::Compiler::compile_piped_call::piped_value_first_then_the_call_into_the_result_register"),
     dict(name="bytecursor_next_back_front_byte", kind="break", prop="C13", units=["V-bytecursor"], file="crates/runtime/src/types/iterator.rs",
          old="let result = (self.bytes)[self.end];", new="let result = (self.bytes)[self.index];", expect="V-bytecursor::ByteIterator::next_back::yields_back_position"),
     dict(name="bytecursor_next_reads_after_advance", kind="break", prop="C13", units=["V-bytecursor"], file="crates/runtime/src/types/iterator.rs",
